@@ -150,6 +150,51 @@ def volatile_witness(lang):
         shutil.rmtree(base, ignore_errors=True)
 
 
+def native_redefinition_witness():
+    """two generations in ONE process; between them a definition changes but keeps its name, version and bit length (its
+    dependency moves to another type): the second run must equal a fresh-process run of the changed definitions"""
+    import hashlib, pathlib, shutil, subprocess, sys, tempfile
+    base = pathlib.Path(tempfile.mkdtemp(prefix="vk_c10r_"))
+    try:
+        prog = (
+            "import sys, pathlib, hashlib, pydsdl\n"
+            "from nunavut.lang import LanguageContextBuilder\nfrom nunavut._namespace import build_namespace_tree\nfrom nunavut.jinja import DSDLCodeGenerator\n"
+            "base = pathlib.Path(sys.argv[1])\n"
+            "def write(rev):\n"
+            "    d = base / 'in/ns'; d.mkdir(parents=True, exist_ok=True)\n"
+            "    (d / 'B.1.0.dsdl').write_text('uint8 x\\n@sealed\\n'); (d / 'C.1.0.dsdl').write_text('uint8 y\\n@sealed\\n')\n"
+            "    (d / 'A.1.0.dsdl').write_text(('ns.B.1.0 f\\n' if rev == 'X' else 'ns.C.1.0 f\\n') + '@sealed\\n')\n"
+            "def gen(out, lang):\n"
+            "    ctx = LanguageContextBuilder(include_experimental_languages=True).set_target_language(lang).create()\n"
+            "    ts = pydsdl.read_namespace(str(base / 'in/ns'), [])\n"
+            "    ns = build_namespace_tree(ts, str(base / 'in/ns'), str(out), ctx)\n"
+            "    DSDLCodeGenerator(ns).generate_all(False, True, False, False)\n"
+            "    return {p.relative_to(out).as_posix(): hashlib.sha256(p.read_bytes()).hexdigest() for p in sorted(out.rglob('*')) if p.is_file()}\n"
+            "import json\nres = {}\n"
+            "for lang in ('c', 'cpp', 'py'):\n"
+            "    if sys.argv[2] == 'history':\n"
+            "        write('X'); gen(base / f'h_{lang}', lang)\n"
+            "    write('Y'); res[lang] = gen(base / f'o_{sys.argv[2]}_{lang}', lang)\n"
+            "print(json.dumps(res))\n")
+        (base / "p.py").write_text(prog)
+        import json, os
+        env = dict(os.environ, PYTHONPATH=str(SRC), PYTHONDONTWRITEBYTECODE="1")
+        outs = {}
+        for mode in ("fresh", "history"):
+            r = subprocess.run([sys.executable, str(base / "p.py"), str(base), mode], capture_output=True, text=True, env=env, timeout=300)
+            if r.returncode != 0:
+                return None
+            outs[mode] = json.loads(r.stdout.strip().splitlines()[-1])
+        for lang in outs["fresh"]:
+            diff = [f for f in outs["fresh"][lang] if outs["history"][lang].get(f) != outs["fresh"][lang][f]]
+            if diff:
+                return {"input": {"language": lang, "history": ["generate with A.1.0 = {ns.B.1.0 f}", "generate with A.1.0 = {ns.C.1.0 f} (same name, version, bit length)"]},
+                        "why": f"the second run differs from a fresh-process run of the same definitions in {diff[:3]}"}
+        return None
+    finally:
+        shutil.rmtree(base, ignore_errors=True)
+
+
 def native_history_witness():
     """earlier runs in the same process must not change a later run: (different stropping configuration, auditing on,
     another type set) then a plain run, compared with a fresh-process style plain run"""
@@ -289,6 +334,25 @@ def main():
             run.add_check(f"{q}#shared-state", False, "E-FX shared-state frame", 0, f"classified memoisation {sorted(c[2])} is gone")
             w = native_history_witness()
             run.fail(report.Failure(f"{q}#shared-state", "frame", f"{ix.fns[q].file}: the classified memoisation {sorted(c[2])} was replaced" + (f"; {w['input']}: {w['why']}" if w else ""), {"witness": w}, bool(w)))
+    # a memoised function keyed by pydsdl objects must carry the per-run object (`self`) in its key: pydsdl composite types
+    # compare by name, version and bit-length set, so a process-wide cache would serve the result of an EARLIER run's
+    # definition to a later run (two definitions of one name/version with equal bit lengths are "equal")
+    for qn, f in sorted(ix.fns.items()):
+        decos = [ast.unparse(d) for d in f.node.decorator_list]
+        if not any("lru_cache" in d or d.endswith(".cache") for d in decos):
+            continue
+        params = [a.arg for a in f.node.args.args]
+        takes_model = any("pydsdl" in ast.unparse(a.annotation) for a in f.node.args.args if a.annotation is not None)
+        per_run_key = bool(params) and params[0] == "self" and not any("staticmethod" in d or "classmethod" in d for d in decos)
+        if not takes_model:
+            continue
+        name = f"{qn}#memoised-on-a-pydsdl-value-keeps-the-per-run-object-in-its-key"
+        run.add_check(name, per_run_key, "E-FX memoisation key", 0, f"decorators {decos}, parameters {params}")
+        if not per_run_key:
+            hw2 = native_redefinition_witness()
+            run.fail(report.Failure(name, "frame", f"{f.file}:{f.node.lineno}: {f.name} is memoised process-wide on a pydsdl value (decorators {decos}, parameters {params}): pydsdl types compare by name, "
+                                    "version and bit-length set, so a later run with a changed definition of the same name gets the earlier run's result" + (f"; {hw2['input']}: {hw2['why']}" if hw2 else ""),
+                                    {"witness": hw2}, bool(hw2)))
     # caller-owned containers are not mutated in place on the generator path
     for q, nm, line, rebound in param_mutations(ix):
         name = f"{q}#parameter-mutated-in-place:{nm}"
@@ -361,6 +425,10 @@ def main():
                     "6 types incl. two versions of one type and a field/namespace name clash, 2 languages", 12, hw is None, str(hw or ""))
     if hw and not run.failures:
         run.fail(report.Failure("native#history", "frame", f"{hw['input']}: {hw['why']}", {"witness": hw}, True))
+    rw = native_redefinition_witness()
+    run.add_bounded("a definition changed between two runs of one process (same name, version, bit length): second run == fresh-process run (c, cpp, py)", "1 redefinition, 3 languages", 3, rw is None, str(rw or ""))
+    if rw and not run.failures:
+        run.fail(report.Failure("native#redefinition-between-runs", "frame", f"{rw['input']}: {rw['why']}", {"witness": rw}, True))
     w = native_subset_witness()
     run.add_bounded("whole namespace vs dependency-closed subset vs reversed order: shared files byte-identical (c, py)", "3 types, 3 variants, 2 languages", 6, w is None, str(w or ""))
     if w:
